@@ -212,57 +212,58 @@ def upper_set_of_char_class(ctx):
 
 
 def rule_ascii_fold_consts(ctx):
+    """AsciiChar::normalize and ::char_class_and_normalize as complete functions of (byte, ignore_case, normalize):
+    both fold exactly b'A'..=b'Z' by +32 under ignore_case and nothing else, and the class component is
+    char_class(byte).  Evaluated from the extracted decision tables for all 256 x 4 inputs (absint)."""
+    from absint import Evaluator, Unknown
     facts = ctx.facts
     n = get_fn(facts, M, "<chars::AsciiChar as chars::Char>::normalize")
     c = get_fn(facts, M, "<chars::AsciiChar as chars::Char>::char_class_and_normalize")
-
-    def is_scr(e):
-        return e[0] == "field" and e[2] == "0" and peel(e[1])[0] == "arg"
-
-    def plus32_blocks(fn):
-        out = set()
-        for bi, si, s in fn.stmts(lambda s: s["k"] == "assign" and ("bin" in s["rv"]) and s["rv"]["bin"] in ("Add", "AddWithOverflow") and s["rv"].get("ty") == "u8"):
-            b = fn.expr_of_operand(s["rv"]["b"])
-            if b[0] == "const" and b[1] == 32:
-                out.add(bi)
-        return out
-    pn = plus32_blocks(n)
-    pc = plus32_blocks(c)
-    if not pn or not pc:
-        ctx.violation("AsciiChar|fold-step|1", site(n, 0), "ASCII folding (`+ 32`) missing in %s" % ("normalize" if not pn else "char_class_and_normalize"))
+    k = get_fn(facts, M, "<chars::AsciiChar as chars::Char>::char_class")
+    E = Evaluator(facts, M)
+    folded_n, folded_c = {}, {}
+    bad_class = []
+    try:
+        for ic in (0, 1):
+            for nz in (0, 1):
+                cfg = ("struct", "Config", {"ignore_case": ic, "normalize": nz, "delimiter_chars": ("bytes", b"/,:;|")})
+                for b in range(256):
+                    me = ("struct", "AsciiChar", {"0": b})
+                    r = E.call(n, [me, cfg])
+                    v = E.field(r, "0")
+                    if v != b:
+                        folded_n[(ic, b)] = v
+                    r2 = E.call(c, [me, cfg])
+                    v2 = E.field(E.field(r2, "0"), "0")
+                    if v2 != b:
+                        folded_c[(ic, b)] = v2
+                    cls = E.call(k, [me, cfg])
+                    if E.field(r2, "1") != cls and len(bad_class) < 3:
+                        bad_class.append((b, E.field(r2, "1"), cls))
+    except Unknown as ex:
+        raise Inconclusive("AsciiChar normalizers are not finite decision tables over (byte, config): %s" % ex)
+    want = {(1, b): b + 32 for b in range(65, 91)}
+    if not folded_n or not folded_c:
+        ctx.violation("AsciiChar|fold-step|1", site(n, 0), "ASCII folding (`+ 32`) missing in %s" % ("normalize" if not folded_n else "char_class_and_normalize"))
         return
-    rn = reach_sets(n, is_scr, lambda bb: bb in pn)
-    set_n = union_intervals([(lo, hi) for lo, hi, conds, bb in rn])
-    conds_n = set(cd for lo, hi, conds, bb in rn for cd in conds)
-    # c_c_a_n: guarded by class == Upper
-    gs = []
-    for bb in pc:
-        gs += [(config_atom(c, g[3]), g[2] in ([None], [1])) for g in guards_of(c, bb)]
-    upper, upper_has_other = upper_set_of_char_class(ctx)
-    class_guard = [(a, t) for a, t in gs if a[0] == "class"]
-    cfg_guard = [(a, t) for a, t in gs if a[0] == "config"]
-    other = [(a, t) for a, t in gs if a[0] not in ("class", "config")]
-    set_c = None
-    if class_guard == [(("class", "eq", "Upper"), True)] and not other:
-        set_c = upper
-    elif not class_guard and not other:
-        rc = reach_sets(c, is_scr, lambda bb: bb in pc)
-        set_c = union_intervals([(lo, hi) for lo, hi, conds, bb in rc])
-    key = "AsciiChar|fold-set|1"
-    if set_c is None:
-        ctx.violation(key, site(c, 0), "cannot reduce the fold guard of AsciiChar::char_class_and_normalize to a byte set: %s" % gs)
-        return
-    if set_n == set_c == [(65, 90)]:
-        ctx.ok(site(n, 0), "AsciiChar::normalize and ::char_class_and_normalize fold exactly b'A'..=b'Z' by +32")
+
+    def sets(f):
+        return union_intervals([(b, b) for (ic, b) in f])
+    nocfg = [fn_ for fn_, f in ((n, folded_n), (c, folded_c)) if any(ic == 0 for ic, b in f)]
+    for fn_ in nocfg:
+        ctx.violation("%s|fold-config|1" % fn_.path, site(fn_, 0), "ASCII folding not guarded by config.ignore_case")
+    if folded_n == want and folded_c == want:
+        ctx.ok(site(n, 0), "AsciiChar::normalize and ::char_class_and_normalize fold exactly b'A'..=b'Z' by +32, only under ignore_case (256 x 4 inputs each)")
+    elif not nocfg or sets(folded_n) != [(65, 90)] or sets(folded_c) != [(65, 90)] or any(v != b + 32 for (ic, b), v in list(folded_n.items()) + list(folded_c.items())):
+        if not (nocfg and sets(folded_n) == [(65, 90)] and sets(folded_c) == [(65, 90)]):
+            ctx.violation("AsciiChar|fold-set|1", site(c, 0), "ASCII fold sets differ or are not A..=Z -> +32: normalize folds %s, char_class_and_normalize folds %s" % (sets(folded_n), sets(folded_c)))
+    if bad_class:
+        ctx.violation("AsciiChar|class-component|1", site(c, 0), "char_class_and_normalize returns a class different from char_class for byte(s) %s" % bad_class)
     else:
-        ctx.violation(key, site(c, 0), "ASCII fold sets differ or are not A..=Z: normalize folds %s, char_class_and_normalize folds %s" % (set_n, set_c))
-    # both only under ignore_case
-    for fn, blocks in ((n, pn), (c, pc)):
-        okc = all(any(config_atom(fn, g[3]) == ("config", "ignore_case") and g[2] in ([None], [1]) for g in guards_of(fn, bb)) for bb in blocks)
-        if okc:
-            ctx.ok(site(fn, 0), "ASCII folding only under config.ignore_case")
-        else:
-            ctx.violation("%s|fold-config|1" % fn.path, site(fn, 0), "ASCII folding not guarded by config.ignore_case")
+        ctx.ok(site(c, 0), "class component of char_class_and_normalize == char_class(byte) for all bytes and configurations")
+    for fn_ in (n, c):
+        if fn_ not in nocfg:
+            ctx.ok(site(fn_, 0), "ASCII folding only under config.ignore_case")
     # the `char` impl's ASCII early-out delegates to the AsciiChar sibling
     cc = get_fn(facts, M, "<char as chars::Char>::char_class_and_normalize")
     deleg = [bi for bi, t in cc.calls(lambda t: callee(t) == "<chars::AsciiChar as chars::Char>::char_class_and_normalize")]
